@@ -522,6 +522,7 @@ func use(b []byte) int {
 	checkLazyBitAgreement(r, prog, prog.Pkg(""), lp, r.Tier == "thorough")
 	checkLazyDecodeBits(r, prog, prog.Pkg(""), lp)
 	checkLengthDelimitedSlices(r, prog, lp)
+	checkDefValidate(r, prog, lp)
 	checkLazyMisc(r, prog, lp)
 	nf2 := checkFoundGuards(r, prog, lp)
 	r.Floor("uses of binary-search positions", nf2, 6)
